@@ -123,7 +123,7 @@ PROPS = {
         "rule": WORLD_RULE, "assumptions": WORLD_ASSUMPTIONS,
     },
     "C11": {
-        "lean_modules": ["Perp.Props.VammGuards", "Perp.Props.EngineMoney", "Perp.Props.SatTrace", "Perp.Props.SatFlows", "Perp.Props.SatC11", "Perp.Props.SatBuffer", "Perp.Props.SatEWitness", "Perp.Props.SatE", "Perp.Props.Capstone", "Perp.Props.CapClose"],
+        "lean_modules": ["Perp.Props.VammGuards", "Perp.Props.EngineMoney", "Perp.Props.SatTrace", "Perp.Props.SatFlows", "Perp.Props.SatC11", "Perp.Props.SatBuffer", "Perp.Props.SatEWitness", "Perp.Props.SatE", "Perp.Props.Capstone", "Perp.Props.CapClose", "Perp.Props.SatExtra2"],
         "runs": lambda tier, seed: world_runs(tier, seed) + [vamm_run(tier, seed, 600, 10000)],
         "rule": WORLD_RULE, "assumptions": WORLD_ASSUMPTIONS,
     },
